@@ -214,7 +214,8 @@ impl Layer {
             return;
         }
         if pos.y >= self.lines.len() as i32 {
-            self.lines.resize(pos.y as usize + 1, Line::create(self.size.width));
+            // lines grow on demand, a line that is shorter than the layer is padded with invisible chars when read
+            self.lines.resize(pos.y as usize + 1, Line::default());
         }
 
         if self.properties.has_alpha_channel && self.properties.is_alpha_channel_locked {
